@@ -19,6 +19,7 @@ pub mod c16;
 pub mod c17;
 pub mod c18;
 pub mod c19;
+pub mod c20;
 pub mod hist;
 
 pub struct Prop {
@@ -60,6 +61,7 @@ pub fn lookup(id: &str) -> Option<Prop> {
         "C17" => Prop { id: "C17", run: c17::run, replay: c17::replay, rule: c17::RULE, assumptions: COMMON_ASSUMPTIONS, isolated: false, corpus: None },
         "C18" => Prop { id: "C18", run: c18::run, replay: c18::replay, rule: c18::RULE, assumptions: COMMON_ASSUMPTIONS, isolated: false, corpus: Some(c18::corpus) },
         "C19" => Prop { id: "C19", run: c19::run, replay: c19::replay, rule: c19::RULE, assumptions: COMMON_ASSUMPTIONS, isolated: false, corpus: None },
+        "C20" => Prop { id: "C20", run: c20::run, replay: c20::replay, rule: c20::RULE, assumptions: COMMON_ASSUMPTIONS, isolated: false, corpus: None },
         _ => return None,
     })
 }
